@@ -83,7 +83,7 @@ package segread
 //@ ghostdecl dictWordsMatched int
 //@ ghostdecl dictWordsSelected int
 //@ func ApplySearchToExpressionFilterDictCsg
-//@   props C02
+//@   props C02 C03
 //@   ghostinit ghost(0, "dictWords") == 0 && ghost(0, "dictWordsChecked") == 0 && ghost(0, "dictWordsMatched") == 0 && ghost(0, "dictWordsSelected") == 0
 //@   site callret sfr.GetDeTlv #1:
 //@     ghostset ghost(0, "dictWords") = len(result)
